@@ -959,6 +959,8 @@ def t2_rendered(ctx: Ctx, enc440, MM, S, MetadataError) -> None:
 VERSION_IDIOMS = ["literal", "read", "read_with", "io_open", "codecs_open", "regex", "import_pkg", "import_sub", "exec", "cfg",
                   "import_relative", "spec_load", "dunder_import", "ast_literal", "syspath_src"]
 INSTALL_IDIOMS = ["literal", "read_lines", "read_iter", "import_helper", "cfg", "split_cfg"]
+SHARED_IDIOMS = ["shared_spec", "shared_imp", "shared_plain", "shared_pkgsub", "shared_exec"]
+SHARED_NAMES = ["version", "_about", "c12meta"]
 HERE_STYLES = ["rel", "dirname_file", "abspath_dirname", "dirname_abspath", "chdir_here", "dotslash", "getcwd"]
 
 
@@ -1062,6 +1064,33 @@ def render_program(prog: Dict[str, Any]) -> Tuple[List[Tuple[str, str]], Dict[st
         files["src/c12verhelper.py"] = "VERSION = '%s'\n" % v
         pre.append("sys.path.insert(0, os.path.join(os.path.dirname(os.path.abspath(__file__)), 'src'))\nfrom c12verhelper import VERSION")
         kw.append("version=VERSION")
+    elif vi in SHARED_IDIOMS:
+        # a helper module whose NAME is shared with other projects of the same batch (each with its own
+        # values): what one project loads must never be what a later project sees
+        N = prog["shared"]
+        body = "VERSION = '%s'\nREQUIRES = %r\n" % (v, d["install"])
+        if vi == "shared_spec":
+            files[pkg + "/" + N + ".py"] = body
+            pre.append("from importlib.util import module_from_spec, spec_from_file_location\n"
+                       "spec = spec_from_file_location(%r, os.path.join(%r, %r))\n"
+                       "hm = module_from_spec(spec)\nspec.loader.exec_module(hm)" % (N, pkg, N + ".py"))
+            kw += ["version=hm.VERSION", "install_requires=hm.REQUIRES"]
+        elif vi == "shared_imp":
+            files[pkg + "/" + N + ".py"] = body
+            pre.append("import imp\nhm = imp.load_source(%r, %r)" % (N, "./" + pkg + "/" + N + ".py"))
+            kw += ["version=hm.VERSION", "install_requires=hm.REQUIRES"]
+        elif vi == "shared_plain":
+            files[N + ".py"] = body
+            pre.append("from %s import VERSION, REQUIRES" % N)
+            kw += ["version=VERSION", "install_requires=REQUIRES"]
+        elif vi == "shared_pkgsub":
+            files[pkg + "/" + N + ".py"] = body
+            pre.append("from %s.%s import VERSION, REQUIRES" % (pkg, N))
+            kw += ["version=VERSION", "install_requires=REQUIRES"]
+        else:       # shared_exec
+            files[pkg + "/" + N + ".py"] = body
+            pre.append("ns = {}\nexec(open(%s).read(), ns)" % P(pkg + "/" + N + ".py"))
+            kw += ["version=ns['VERSION']", "install_requires=ns['REQUIRES']"]
     if prog.get("readme"):
         files["README.rst"] = "Title\n=====\n\ntext \u00e9\n"
         if prog["readme"] == "guarded":
@@ -1084,6 +1113,8 @@ def render_program(prog: Dict[str, Any]) -> Tuple[List[Tuple[str, str]], Dict[st
         files[pkg + "/_deps.py"] = "INSTALL = %r\n" % ins
         pre.append("from %s._deps import INSTALL" % pkg)
         kw.append("install_requires=INSTALL")
+    elif ii == "shared":
+        pass                       # install_requires comes from the shared helper module (above)
     elif ii == "cfg":
         cfg["install"] = list(ins)
         eff["install"] = None
@@ -1101,6 +1132,99 @@ def render_program(prog: Dict[str, Any]) -> Tuple[List[Tuple[str, str]], Dict[st
         eff["cfg"] = cfg
     files["setup.py"] = "\n".join(pre) + "\nsetup(" + ", ".join(kw) + ")\n"
     return sorted(files.items()), eff
+
+
+def gen_batch(rng, i: int) -> List[Dict[str, Any]]:
+    """2-3 unrelated projects that keep version/requirements in a helper module of the SAME name, each
+    loading it through a different idiom"""
+    N = rng.choice(SHARED_NAMES)
+    k = rng.choice([2, 3, 3])
+    idioms = rng.sample(SHARED_IDIOMS, k)
+    if "shared_plain" not in idioms and "shared_pkgsub" not in idioms and rng.random() < 0.8:
+        idioms[rng.randrange(k)] = "shared_plain"
+    pkgs = ["pkg", "pkg", "mylib"] if rng.random() < 0.5 else ["pkg", "mylib", "src_pkg"]
+    out = []
+    names = rng.sample(NAMES, k)
+    for j in range(k):
+        d = gen_decl(rng, "wf")
+        d["name"] = names[j]
+        d["install"] = [x for x in (d["install"] or [])] or [gen_head(rng)]
+        d["version"] = rng.choice(VERSIONS)
+        out.append({"decl": d, "version_idiom": idioms[j], "install_idiom": "shared", "here": "rel", "pkg": pkgs[j],
+                    "i": i * 10 + j, "pyproject": False, "readme": None, "shared": N})
+    return out
+
+
+def leaked_modules(before: set, roots: List[str]) -> List[str]:
+    """modules registered during an analysis whose __file__ lies inside an analysed project: absolute under
+    its fake root, or relative (to the virtual cwd)"""
+    out = []
+    for name in list(sys.modules):
+        if name in before:
+            continue
+        f = getattr(sys.modules.get(name), "__file__", None)
+        if isinstance(f, str) and f and (not os.path.isabs(f) or any(f.startswith(r + "/") or f == r for r in roots)):
+            out.append(name + ":" + f)
+    return sorted(out)
+
+
+def run_batch(enc440, MM, S, MetadataError, rendered: List[Dict[str, str]], order: List[int], kinds: List[str]) -> List[Any]:
+    """analyse the projects in the given order in THIS process; returns [(obs, leaked modules)]"""
+    out = []
+    with Stubs(S):
+        for idx in order:
+            path = rendered[idx][kinds[idx]]
+            before = set(sys.modules)
+            obs = observe_extract(enc440, MM, MetadataError, path)
+            root = "/" + os.path.basename(path)
+            out.append((obs, leaked_modules(before, [root])))
+    for n in SHARED_NAMES:                # never let a leak of one case poison the next
+        sys.modules.pop(n, None)
+    return out
+
+
+def t2_batches(ctx: Ctx, enc440, MM, S, MetadataError) -> None:
+    """T2 (b'): analysis ORDER - projects sharing helper-module names across idioms, in all orders"""
+    import itertools
+    rng = ctx.rng
+    nb = ctx.n(8, 120)
+    base = ctx.tmpdir() / "batches"
+    for b in range(nb):
+        batch = gen_batch(rng, b)
+        rendered, effs, leads = [], [], []
+        for j, prog in enumerate(batch):
+            files, eff = render_program(prog)
+            lead = "{}-{}".format(prog["decl"]["name"], _canon_version(prog["decl"]["version"]))
+            rendered.append(render(base / f"{b}-{j}", lead, files))
+            effs.append(eff)
+            leads.append(lead)
+        kinds_choices = [[rng.choice("DTZ") for _ in batch] for _ in range(2)] + [["D"] * len(batch)]
+        lines = []
+        for j, prog in enumerate(batch):
+            for k in "DTZ":
+                lines.append("F {} {} {}".format(k, fn_tokens(enc440, rendered[j][k]), enc_decl(enc440, effs[j], None)))
+        ans = run_model("C12", lines)
+        for order in itertools.permutations(range(len(batch))):
+            kinds = rng.choice(kinds_choices)
+            res = run_batch(enc440, MM, S, MetadataError, rendered, list(order), kinds)
+            for pos, idx in enumerate(order):
+                obs, leaked = res[pos]
+                want = dec_hres(ans[3 * idx + "DTZ".index(kinds[idx])])
+                if want[0] == "UN":
+                    continue
+                if want[0] == "ERR":
+                    want = ("MetadataError",)
+                case = {"batch": [{k: p[k] for k in ("decl", "version_idiom", "install_idiom", "here", "pkg", "shared", "pyproject", "readme", "i")}
+                                  for p in batch],
+                        "order": list(order), "kinds": kinds, "position": pos, "project": idx}
+                ctx.count("batches:idiom:" + batch[idx]["version_idiom"])
+                ctx.count("batches:" + obs[0])
+                ctx.case(key=("batch", json.dumps(case, sort_keys=True)), nontrivial=(pos > 0 and obs[0] == "OK"),
+                         sample={"case": case, "impl": obs} if (b == 0 and pos == 1 and order[0] == 0) else None)
+                if tuple(obs) != tuple(want):
+                    ctx.mismatch("analysis-order", case, obs, want)
+                if leaked:
+                    ctx.mismatch("module-left-in-sys.modules", case, leaked, [])
 
 
 BROKEN_SETUP = "from setuptools import setup\nraise RuntimeError('this project cannot be analysed')\n"
@@ -1329,6 +1453,7 @@ def correspondence(ctx: Ctx) -> None:
     t2_paths(ctx, enc440, MM, S, MetadataError)
     t2_rendered(ctx, enc440, MM, S, MetadataError)
     t2_idioms(ctx, enc440, MM, S, MetadataError)
+    t2_batches(ctx, enc440, MM, S, MetadataError)
     coq_recheck(ctx, enc440)
 
 
@@ -1478,13 +1603,64 @@ def oracle_program(ctx: Ctx, enc440, MM, S, MetadataError, prog: Dict[str, Any],
     return None
 
 
+def oracle_batch(ctx: Ctx, enc440, MM, S, MetadataError, batch: List[Dict[str, Any]], order: List[int],
+                 kinds: List[str], tag: str) -> Optional[str]:
+    """the statement on the implementation only: every project of the sequence, analysed in this order in
+    one process, must give its own declaration"""
+    from packaging.version import Version
+    rendered = []
+    for j, prog in enumerate(batch):
+        files, _ = render_program(prog)
+        d = prog["decl"]
+        lead = "{}-{}".format(d["name"], _canon_version(d["version"]))
+        rendered.append(render(ctx.tmpdir() / "oracle-batch" / tag / str(j), lead, files))
+    res = run_batch(enc440, MM, S, MetadataError, rendered, order, kinds)
+    for pos, idx in enumerate(order):
+        obs, leaked = res[pos]
+        d = batch[idx]["decl"]
+        who = "project #%d (%s, %s) analysed at position %d after %s" % (
+            idx, d["name"], batch[idx]["version_idiom"], pos, [batch[i]["version_idiom"] for i in order[:pos]])
+        if obs[0] != "OK":
+            return who + ": reported as " + obs[0]
+        if obs[1] != d["name"] or obs[2] != enc440.ver_token(Version(d["version"])):
+            return who + ": name/version differ from ITS declaration (got %s %s, declared %s %s)" % (obs[1], obs[2], d["name"], d["version"])
+        if sem_reqs(obs[3]) != sem_reqs(declared_reqs(d)):
+            return who + ": requirements differ from ITS declaration"
+    return None
+
+
 def search(ctx: Ctx) -> Optional[Dict[str, Any]]:
     enc440, MM, S, X, MetadataError = _imports()
     rng = ctx.rng
+    # analysis-order suspects first: the disagreeing batches, then fresh ones in all orders
+    import itertools
+    seen_b = 0
+    for mm in ctx.mismatches:
+        c = mm.get("case")
+        if isinstance(c, dict) and "batch" in c and seen_b < 10:
+            seen_b += 1
+            try:
+                why = oracle_batch(ctx, enc440, MM, S, MetadataError, c["batch"], c["order"], c["kinds"], f"m{seen_b}")
+            except Exception:
+                why = None
+            if why:
+                return {"kind": "batch", "input": {"batch": c["batch"], "order": c["order"], "kinds": c["kinds"]}, "why": why}
+    for b in range(ctx.n(12, 120)):
+        batch = gen_batch(rng, 1000 + b)
+        if not all(in_guard(p["decl"]) for p in batch):
+            continue
+        for order in itertools.permutations(range(len(batch))):
+            kinds = [rng.choice("DTZ") for _ in batch]
+            try:
+                why = oracle_batch(ctx, enc440, MM, S, MetadataError, batch, list(order), kinds, f"f{b}")
+            except Exception:
+                why = None
+            if why:
+                return {"kind": "batch", "input": {"batch": batch, "order": list(order), "kinds": kinds}, "why": why}
     suspects: List[Dict[str, Any]] = []
     for mm in ctx.mismatches:
         c = mm.get("case")
-        if isinstance(c, dict) and "decl" in c and isinstance(c["decl"], dict):
+        if isinstance(c, dict) and "decl" in c and isinstance(c["decl"], dict) and "batch" not in c:
             d = c["decl"]
             if d.get("name") and d.get("version") and not d.get("framework") and d.get("cfg") is None:
                 suspects.append({"decl": d, "version_idiom": c.get("version_idiom", "literal"),
@@ -1547,4 +1723,7 @@ def replay(ctx: Ctx, payload: Dict[str, Any]) -> bool:
     fi = payload.get("failing_input")
     if not fi:
         return False
+    if fi.get("kind") == "batch":
+        b = fi["input"]
+        return oracle_batch(ctx, enc440, MM, S, MetadataError, b["batch"], b["order"], b["kinds"], "replay") is not None
     return oracle_program(ctx, enc440, MM, S, MetadataError, fi["input"], "replay") is not None
